@@ -28,6 +28,9 @@ EDGE_CAP = 4 * PAGE  # the boundary / full-file rounds grow the bitmap themselve
 #             relocated bitmap and the final release frees it (strict mode too); strict refusal / failed copy leave the new
 #             region allocated; a negative new length releases everything                  fixes/fsm-realloc-recheck.diff
 KNOWN = {"realloc": 4, "hint": 5, "leak": 6, "recheck": 7}
+#   solid   : (known finding, no model variant yet) IWFSM_SOLID_ALLOCATED_SPACE that cannot extend the file returns IWFS_ERROR_MAXOFF
+#             after the region has been marked allocated (fixes/fsm-solid-rollback.diff).  Such requests are generated ONLY when
+#             VERIF_FSM_OPEN names `solid` (not part of `all`): the model follows the code as it is, not the patched code.
 OPEN = set(x for x in os.environ.get("VERIF_FSM_OPEN", "").replace("all", ",".join(KNOWN)).split(",") if x)
 VARIANT = None   # set per run (variant_of_source)
 
@@ -1376,7 +1379,8 @@ def gen_script(rng, impl, nops, focus, scripted=None):
         for _ in range(rng.range(3, 8)):
             zr = runs_of(orc.st.B)[0]
             kind = rng.weighted([("hint-big", 6), ("hint-edge", 2), ("len-big", 2), ("len-edge", 1), ("grow-fail", 2),
-                                 ("small", 2), ("free", 2), ("reopen", 1), ("chk", 1), ("realloc-limit", 3 if orc.live else 0)])
+                                 ("small", 2), ("free", 2), ("reopen", 1), ("chk", 1), ("realloc-limit", 3 if orc.live else 0),
+                                 ("solid-limit", 3 if "solid" in OPEN else 0)])
             orc.count("overflow script: " + kind)
             fl = rng.choice([0, 0, F_NOEXT, F_NOOVER | F_NOSTATS, F_NOEXT | F_NOOVER | F_NOSTATS, F_NOSTATS, F_NOOVER])
             ln = rng.weighted(SIZES_BLK) * bsz - rng.choice([0, 0, 1])
@@ -1403,6 +1407,10 @@ def gen_script(rng, impl, nops, focus, scripted=None):
             elif kind == "grow-fail":     # more than the limit can hold
                 hint = 0
                 ln = orc.maxoff + rng.choice([0, bsz, PAGE, 10 * PAGE])
+            elif kind == "solid-limit":   # solid space the size limit cannot hold (only on request: VERIF_FSM_OPEN=solid)
+                hint = 0
+                ln = orc.maxoff + rng.choice([0, bsz, PAGE])
+                fl = F_SOLID | F_NOOVER | F_NOSTATS | rng.choice([0, F_PAGE])
             elif kind == "realloc-limit":
                 # a region grows by reallocate while every block below the size limit is taken: the new region lies behind the
                 # limit, the copy cannot bring it inside the file, the call fails - and must give the new region back
